@@ -19,7 +19,16 @@ use serde_json::{json, Value};
 
 pub use tape::Tape;
 
-pub const VERIF_DIR: &str = "/verif";
+/// root of the verification tree (corpus, known findings, replays, evidence): `/verif`, or the
+/// directory named by `VERIF_ROOT` (set by run.sh to its own directory, so that a snapshot of
+/// /verif started with `vp run` keeps its output to itself)
+pub fn verif_dir() -> &'static str {
+    static DIR: std::sync::OnceLock<String> = std::sync::OnceLock::new();
+    DIR.get_or_init(|| match std::env::var("VERIF_ROOT") {
+        Ok(d) if !d.is_empty() => d,
+        _ => "/verif".to_string(),
+    })
+}
 
 #[derive(Debug, Clone)]
 pub struct Failure {
@@ -482,7 +491,7 @@ fn run_index_sub(
 
 /// Load the committed known-findings file; returns the set of keys with status "known" for `prop`.
 pub fn load_known(prop: &str) -> HashSet<String> {
-    let path = format!("{}/known_findings.json", VERIF_DIR);
+    let path = format!("{}/known_findings.json", verif_dir());
     let mut out = HashSet::new();
     if let Ok(s) = std::fs::read_to_string(&path) {
         if let Ok(v) = serde_json::from_str::<Value>(&s) {
@@ -503,7 +512,7 @@ pub fn load_known(prop: &str) -> HashSet<String> {
 }
 
 fn write_replay(prop: &str, v: &Value) -> String {
-    let dir = format!("{}/replays", VERIF_DIR);
+    let dir = format!("{}/replays", verif_dir());
     let _ = std::fs::create_dir_all(&dir);
     let sub = v.get("sub").and_then(|s| s.as_str()).unwrap_or("x");
     let body = serde_json::to_string_pretty(v).unwrap_or_default();
@@ -569,7 +578,7 @@ pub fn run_property(p: &Property, tier: Tier, seed: u64, only_sub: Option<&str>)
     });
 
     // 1. committed regression replays for this property (bypass the library)
-    let regress_dir = format!("{}/replays/regress", VERIF_DIR);
+    let regress_dir = format!("{}/replays/regress", verif_dir());
     let mut regress_run = 0u64;
     if only_sub.is_none() {
         if let Ok(rd) = std::fs::read_dir(&regress_dir) {
@@ -744,7 +753,7 @@ fn write_evidence(
         "wall_s": (t0.elapsed().as_secs_f64() * 100.0).round() / 100.0,
         "violations": violations,
     });
-    let dir = format!("{}/evidence", VERIF_DIR);
+    let dir = format!("{}/evidence", verif_dir());
     let _ = std::fs::create_dir_all(&dir);
     let _ = std::fs::write(format!("{}/{}.json", dir, p.id), serde_json::to_string_pretty(&ev).unwrap_or_default());
 }
